@@ -3,6 +3,7 @@ package conc
 import (
 	"fmt"
 	"sync"
+	"sync/atomic"
 	"time"
 
 	"github.com/junioryono/godi/v4/verifh/core"
@@ -18,9 +19,13 @@ import (
 // closed or the context cancelled, then the constructor is released. Every one of the
 // resolutions overlaps the Close: each returns a normal result or the disposed error, none
 // panics, none hangs; afterwards the scope refuses use.
-func runC13Waiters(c *eng.Ctx, next func() (int, bool)) {
+func runC13Waiters(c *eng.Ctx, next func() (int, bool)) { runWaiters(c, "C13", next) }
+
+// runWaiters: prop C13 judges every resolver of the overlap; prop C02 only whether two of them
+// came back with different instances of the scoped service (with or without a Close method).
+func runWaiters(c *eng.Ctx, prop string, next func() (int, bool)) {
 	for _, sc := range overlapScenarios() {
-		if sc.op.Kind != core.OpGet || (sc.op.Type != "K3" && sc.op.Type != "S2") {
+		if sc.op.Kind != core.OpGet || (sc.op.Type != "K3" && sc.op.Type != "S2" && sc.op.Type != "S7" && sc.op.Key != "q") {
 			continue
 		}
 		for _, extra := range []int{2, 3} {
@@ -29,12 +34,12 @@ func runC13Waiters(c *eng.Ctx, next func() (int, bool)) {
 				continue
 			}
 			c.R.Begin(idx)
-			waitersOnce(c, idx, sc, extra)
+			waitersOnce(c, prop, idx, sc, extra)
 		}
 	}
 }
 
-func waitersOnce(c *eng.Ctx, idx int, sc overlapScenario, extra int) {
+func waitersOnce(c *eng.Ctx, prop string, idx int, sc overlapScenario, extra int) {
 	// dry run first (the recorder created last is the one constructors report to): the first
 	// resolver is parked in the LAST constructor it runs, the requested service's own
 	dry, _, dleaf := c13Setup(sc)
@@ -59,10 +64,14 @@ func waitersOnce(c *eng.Ctx, idx int, sc overlapScenario, extra int) {
 	feat := fmt.Sprintf("%s|%d-more-resolvers-of-the-same-service-waiting", sc.name, extra)
 	var firstG int64 = -1
 	var gmu sync.Mutex
+	var arrived atomic.Int64
 	count := 0
 	gate := NewGate(func(hp rt.HookPoint) bool {
 		gmu.Lock()
 		defer gmu.Unlock()
+		if hp.Where == "yield:scope.resolve:scoped-cache-miss" && hp.G != firstG {
+			arrived.Add(1) // another resolver is about to queue behind the parked construction
+		}
 		if hp.Where != "ctor" || hp.G != firstG {
 			return false
 		}
@@ -85,7 +94,15 @@ func waitersOnce(c *eng.Ctx, idx int, sc overlapScenario, extra int) {
 		wg.Add(1)
 		go func(i int) { defer wg.Done(); res[i] = r.Do(op) }(i)
 	}
-	time.Sleep(20 * time.Millisecond) // steering: let the extra resolvers reach whatever they wait on
+	// steering: let the extra resolvers reach whatever they wait on (bounded; a resolver that
+	// comes late merely sees the closed scope, which is a legal outcome)
+	for w := 0; w < 2500 && arrived.Load() < int64(extra); w++ {
+		time.Sleep(2 * time.Millisecond)
+	}
+	time.Sleep(10 * time.Millisecond)
+	if arrived.Load() >= int64(extra) {
+		c.R.Count("waiter_overlaps_all_queued", 1)
+	}
 	var clRes core.OpResult
 	closerDone := make(chan struct{})
 	wg.Add(1)
@@ -98,7 +115,7 @@ func waitersOnce(c *eng.Ctx, idx int, sc overlapScenario, extra int) {
 	done := make(chan struct{})
 	go func() { wg.Wait(); close(done) }()
 	if v := awaitOrDiagnose(done, 60*time.Second); !v.Done {
-		if v.Deadlock {
+		if v.Deadlock && prop == "C13" {
 			c.R.Violation(eng.Violation{Prop: "C13", Clause: "hang", Sig: "C13/hang:" + feat + ":" + innermostGodiFn(v.Dump), Case: idx, CaseID: feat, Detail: fmt.Sprintf("%s: resolutions that overlapped the Close never returned; goroutines stuck inside godi:\n%s", feat, v.Dump)})
 		} else {
 			c.R.Inconclusive(idx, "waiters overlap did not finish within the watchdog and no goroutine is provably stuck inside godi")
@@ -127,7 +144,11 @@ func waitersOnce(c *eng.Ctx, idx int, sc overlapScenario, extra int) {
 			if inst == 0 {
 				inst = x.Insts[0].ID
 			} else if inst != x.Insts[0].ID {
-				fs = append(fs, core.Finding{Clause: "half-initialised-result", Sig: feat + ":two-instances", Detail: fmt.Sprintf("%s: resolver %d got another instance of the scoped service than an earlier resolver of the same overlap", feat, i)})
+				clause := "half-initialised-result"
+				if prop == "C02" {
+					clause = "two-instances-in-one-scope"
+				}
+				fs = append(fs, core.Finding{Clause: clause, Sig: feat + ":two-instances", Detail: fmt.Sprintf("%s: resolver %d got another instance of the scoped service than an earlier resolver of the same overlap", feat, i)})
 			}
 		}
 	}
@@ -146,7 +167,16 @@ func waitersOnce(c *eng.Ctx, idx int, sc overlapScenario, extra int) {
 			}
 		}
 	}
-	core.Report(c, "C13", idx, r, fs)
+	if prop != "C13" {
+		var own []core.Finding
+		for _, f := range fs {
+			if f.Clause == "two-instances-in-one-scope" {
+				own = append(own, f)
+			}
+		}
+		fs = own
+	}
+	core.Report(c, prop, idx, r, fs)
 	c.R.Count("waiter_overlaps", 1)
 	c.R.End(idx, eng.Hash("c13-waiters", feat), reached)
 }
